@@ -308,6 +308,14 @@ func EncodedLength(n datamodel.Node) (int64, error) {
 	case datamodel.Kind_Bool:
 		return 1, nil // 0xf4 or 0xf5
 	case datamodel.Kind_Int:
+		if uin, ok := n.(datamodel.UintNode); ok {
+			// may hold a value above the int64 range, which Encode emits as a major 0 uint
+			v, err := uin.AsUint()
+			if err != nil {
+				return 0, err
+			}
+			return uintLength(v), nil
+		}
 		v, err := n.AsInt()
 		if err != nil {
 			return 0, err
